@@ -778,6 +778,8 @@ where
 pub struct SigObs {
     pub p2pkh_verified: u64,
     pub p2sh_verified: u64,
+    /// (input index, hash type, digest the signature was verified under, script code)
+    pub digests: Vec<(usize, u8, [u8; 32], Vec<u8>)>,
 }
 
 /// Verifies the scriptSig of every transparent input of `td` under the coin it spends.
@@ -817,6 +819,7 @@ pub fn check_signatures_with<F: Fn(usize, u8, &Script, &TxOut) -> [u8; 32]>(
                     continue;
                 };
                 let digest = sighash(i, *ht, coin.script_pubkey(), coin);
+                so.digests.push((i, *ht, digest, coin.script_pubkey().0.0.clone()));
                 let ok = secp256k1::ecdsa::Signature::from_der(der)
                     .ok()
                     .zip(secp256k1::PublicKey::from_slice(pk).ok())
@@ -858,6 +861,7 @@ pub fn check_signatures_with<F: Fn(usize, u8, &Script, &TxOut) -> [u8; 32]>(
                 for sg in sigs {
                     let Some((ht, der)) = sg.split_last() else { continue };
                     let digest = sighash(i, *ht, &code, coin);
+                    so.digests.push((i, *ht, digest, redeem.clone()));
                     let Ok(s) = secp256k1::ecdsa::Signature::from_der(der) else { continue };
                     while ki < pks.len() {
                         let okk = secp256k1::PublicKey::from_slice(&pks[ki])
